@@ -356,11 +356,11 @@ func CmdCheck(args []string) int {
 	sort.Strings(inl)
 	assumptions := append([]string{}, claim.Assumptions...)
 	assumptions = append(assumptions,
-		"machine integers are treated as mathematical integers (overflow unchecked)",
-		"decimal.Decimal is modelled as a real number, time.Time as a UTC-midnight day number (see DESIGN.md section 4)",
+		"machine integers are treated as mathematical integers, except for the functions for which this claim lists obligations of kind overflow",
+		"decimal.Decimal and float64 are modelled as real numbers (exact arithmetic; float rounding, NaN and infinities are invisible), time.Time as a UTC-midnight day number (see DESIGN.md section 4)",
 		"text produced by fmt/strings is not modelled; error values carry only their dynamic type tag",
 		"calls listed under opaque_calls havoc the whole heap and return unconstrained results",
-		"goroutines, channels and defer are outside the subset (functions using them cannot be under contract)")
+		"goroutines and channels are outside the subset (functions using them cannot be under contract); defer is supported, mutex operations are no-ops (locks are not modelled)")
 	if len(loopsNoDecr) > 0 {
 		assumptions = append(assumptions, "termination not proved for: "+strings.Join(uniq(loopsNoDecr), "; "))
 	}
